@@ -31,9 +31,68 @@ func c11eList(xs []string) string {
 	return strings.Join(xs, ",")
 }
 
+// c11eHeaders: audited request headers. Header X-Verif-Secret is configured hmac=true; an update to hmac=false (or a
+// removal followed by a re-add in clear) whose storage write FAILS answers with an error and must not take effect: the
+// audit file keeps holding the header's HMAC, never its value. Op line: hdr <update> <fault 0|1> => <class>|hdr:<hmac|clear|absent>
+func c11eHeaders(t *testing.T, out *vh.Out) {
+	for _, upd := range []string{"to-clear", "to-hmac"} {
+		for _, fault := range []int{0, 1} {
+			out.Reset()
+			p := vhNewPhys(t)
+			c, _, root := vhNewCore(t, p, nil, func(conf *CoreConfig) {
+				conf.AuditBackends["file"] = auditFile.Factory
+			})
+			logPath := filepath.Join(t.TempDir(), "audit.log")
+			fme := &routing.MountEntry{Table: auditTableType, Path: "c11hdr", Type: "file", Options: map[string]string{"file_path": logPath}}
+			if err := c.enableAudit(vhRootCtx(), fme, true); err != nil {
+				t.Fatalf("enable file audit device: %v", err)
+			}
+			first := upd == "to-clear" // the state before the update: hmac when it goes to clear, clear when it goes to hmac
+			if cl, _ := vhReq(c, logical.UpdateOperation, "sys/config/auditing/request-headers/X-Verif-Secret", root, map[string]any{"hmac": first}); cl != "ok" {
+				t.Fatalf("header config: %s", cl)
+			}
+			if fault == 1 {
+				p.FailKeyOnce("put", "audited-headers", "")
+			}
+			cl, _ := vhReq(c, logical.UpdateOperation, "sys/config/auditing/request-headers/X-Verif-Secret", root, map[string]any{"hmac": !first})
+			if fault == 1 && !p.KeyFaultFired() {
+				cl += ":nofault"
+			}
+			b0, _ := os.ReadFile(logPath)
+			canary := "CANARYhdr" + upd + vh.I(int64(fault))
+			req := &logical.Request{Operation: logical.ReadOperation, Path: "sys/mounts", ClientToken: root, Headers: map[string][]string{"X-Verif-Secret": {canary}}}
+			req.SetTokenEntry(nil)
+			if _, err := c.HandleRequest(vhRootCtx(), req); err != nil {
+				t.Fatalf("request with header: %v", err)
+			}
+			b1, _ := os.ReadFile(logPath)
+			lines := string(b1[len(b0):])
+			hdr := "absent"
+			switch {
+			case strings.Contains(lines, canary):
+				hdr = "clear"
+			case strings.Contains(strings.ToLower(lines), "x-verif-secret"):
+				hdr = "hmac"
+			}
+			// the configuration the operator was told is in force: the update's when it succeeded, the earlier one otherwise
+			wantHMAC := first
+			if cl == "ok" {
+				wantHMAC = !first
+			}
+			res := cl + "|hdr:" + hdr
+			if wantHMAC && hdr == "clear" {
+				res += "!VIOL:the audit file holds the value of a request header whose configuration in force says hmac=true (the update to hmac=false answered " + cl + ")#audited-header-in-clear-after-failed-update"
+			}
+			out.Op(res, "hdr", upd, vh.I(int64(fault)))
+			_ = c.Shutdown()
+		}
+	}
+}
+
 func TestVerifC11E2E(t *testing.T) {
 	out := vh.Open()
 	defer out.Close()
+	c11eHeaders(t, out)
 	rng := vh.NewRand(vh.Seed() ^ 0xe2e11)
 	cases := 10
 	if vh.Thorough() {
